@@ -688,7 +688,7 @@ func (c *Ctx) c03NickIndex() {
 			facts := g.FactsAt(v)
 			// key must be NickToLower(E)
 			var e ast.Expr
-			if call, ok := ast.Unparen(ie.Index).(*ast.CallExpr); ok && len(call.Args) == 1 {
+			if call, ok := astx.Expand(info, ie.Index).(*ast.CallExpr); ok && len(call.Args) == 1 {
 				if fn := astx.Callee(info, call); fn != nil && fname(fn) == "NickToLower" {
 					e = call.Args[0]
 				}
